@@ -29,7 +29,7 @@ theorem Frame.trans {s s' s'' : St} (a : Frame s s') (b : Frame s' s'') : Frame 
 /-- every recursive call respects the evaluation context -/
 def FrameRec (rec : Rec) : Prop := ∀ t s s' r, rec t s = some (s', r) → Frame s s'
 
-theorem addParent_ctx {s s' : St} {p : Nat} {r : PRef} {v : Int} {res : R} (h : addParent s p r v = (s', res)) :
+theorem addParent_ctx {s s' : St} {p : Nat} {r : PRef} {v : V} {res : R} (h : addParent s p r v = (s', res)) :
     s'.cur = s.cur ∧ s'.depth = s.depth ∧ s'.proc = s.proc := by
   unfold addParent at h
   split at h
@@ -59,6 +59,11 @@ theorem removeParents_ctx (s : St) (c : Nat) :
   · exact ⟨rfl, rfl, rfl⟩
   · rename_i x _
     exact removeFold_ctx c (parentOwners s x.parents) s
+
+theorem markFailed_ctx (s : St) (c : Nat) :
+    (markFailed s c).cur = s.cur ∧ (markFailed s c).depth = s.depth ∧ (markFailed s c).proc = s.proc := by
+  unfold markFailed
+  split <;> exact ⟨rfl, rfl, rfl⟩
 
 /-- leaving an evaluation that was entered from a state with the context of `s` -/
 theorem Frame.of_leave {s s4 : St} (hd : s4.depth = s.depth + 1)
@@ -139,8 +144,13 @@ theorem evalTree_frame {rec : Rec} (hrec : FrameRec rec) : ∀ (t : Tree) (s s' 
       | ok u =>
         simp only at h
         exact f1.trans (ih _ s' r h)
+  | fail =>
+    intro s s' r h
+    simp only [evalTree] at h
+    injection h with h; injection h with h1 _; subst h1
+    exact Frame.refl _
 
-theorem precheck_frame {rec : Rec} (hrec : FrameRec rec) : ∀ (ps : List (PRef × Int)) (s s' : St) (r : Except Err Bool),
+theorem precheck_frame {rec : Rec} (hrec : FrameRec rec) : ∀ (ps : List (PRef × V)) (s s' : St) (r : Except Err Bool),
     precheck rec ps s = some (s', r) → Frame s s' := by
   intro ps
   induction ps with
@@ -203,30 +213,25 @@ theorem readAll_frame {rec : Rec} (hrec : FrameRec rec) : ∀ (cs : List Nat) (s
         simp only at h
         exact f1.trans (ih s1 s' r h)
       | err e =>
-        cases e with
-        | noneVal =>
-          simp only at h
-          exact f1.trans (ih s1 s' r h)
-        | _ =>
-          simp only at h
-          injection h with h; injection h with h1 _; subst h1
-          exact f1
+        simp only at h
+        injection h with h; injection h with h1 _; subst h1
+        exact f1
 
-theorem notifyLoop_frame {rec : Rec} (hrec : FrameRec rec) (k : Key) (old new : Option Int) :
-    ∀ (xs act : List Sub) (s s' : St) (r : Except Err (List Sub)),
-    notifyLoop rec k old new xs act s = some (s', r) → Frame s s' := by
+theorem notifyLoop_frame {rec : Rec} (hrec : FrameRec rec) (k : Key) (old new : V) :
+    ∀ (xs : List Sub) (s s' : St) (r : Except Err Unit),
+    notifyLoop rec k old new xs s = some (s', r) → Frame s s' := by
   intro xs
   induction xs with
   | nil =>
-    intro act s s' r h
+    intro s s' r h
     simp only [notifyLoop] at h
     injection h with h; injection h with h1 _; subst h1
     exact Frame.refl _
   | cons x xs ih =>
-    intro act s s' r h
+    intro s s' r h
     simp only [notifyLoop] at h
     split at h
-    · exact ih _ s s' r h
+    · exact ih s s' r h
     · cases x with
       | dirty c =>
         simp only at h
@@ -240,8 +245,8 @@ theorem notifyLoop_frame {rec : Rec} (hrec : FrameRec rec) (k : Key) (old new : 
           rw [hc] at h
           simp only at h
           split at h
-          · exact ih _ s s' r h
-          · cases hg : rec (.notify (cx.owner, cx.name) cx.value none) (s.setComp c { cx with dirty := true }) with
+          · exact ih s s' r h
+          · cases hg : rec (.notify (cx.owner, cx.name) cx.value.join none) (s.setComp c { cx with dirty := true }) with
             | none => simp [hg] at h
             | some res =>
               obtain ⟨s1, r1⟩ := res
@@ -255,7 +260,7 @@ theorem notifyLoop_frame {rec : Rec} (hrec : FrameRec rec) (k : Key) (old new : 
                 exact f1
               | ok u =>
                 simp only at h
-                exact f1.trans (ih _ s1 s' r h)
+                exact f1.trans (ih s1 s' r h)
       | user hh =>
         simp only at h
         cases hg : readAll rec (s.progs hh) { s with log := s.log ++ [⟨hh, k.1, k.2, old, new⟩] } with
@@ -272,17 +277,18 @@ theorem notifyLoop_frame {rec : Rec} (hrec : FrameRec rec) (k : Key) (old new : 
             exact f1
           | ok u =>
             simp only at h
-            exact f1.trans (ih _ s1 s' r h)
+            exact f1.trans (ih s1 s' r h)
 
-theorem notifyT_frame {rec : Rec} (hrec : FrameRec rec) {k : Key} {old new : Option Int} {s s' : St} {r : R}
+theorem notifyT_frame {rec : Rec} (hrec : FrameRec rec) {k : Key} {old new : V} {s s' : St} {r : R}
     (h : notifyT rec k old new s = some (s', r)) : Frame s s' := by
   unfold notifyT at h
-  cases hg : notifyLoop rec k old new ((s.regs k.1).subs k.2 .change) [] s with
+  simp only at h
+  cases hg : notifyLoop rec k old new (((s.regs k.1).subs k.2 .change).filter Sub.isDep) s with
   | none => simp [hg] at h
   | some res =>
     obtain ⟨s1, r1⟩ := res
     rw [hg] at h
-    have f1 := notifyLoop_frame hrec k old new _ _ _ _ _ hg
+    have f1 := notifyLoop_frame hrec k old new _ _ _ _ hg
     cases r1 with
     | error e =>
       simp only at h
@@ -290,22 +296,36 @@ theorem notifyT_frame {rec : Rec} (hrec : FrameRec rec) {k : Key} {old new : Opt
       exact f1
     | ok act =>
       simp only at h
-      injection h with h; injection h with h1 _; subst h1
-      exact f1.trans (Frame.of_eq rfl rfl rfl)
+      cases hg2 : notifyLoop rec k old new (((s.regs k.1).subs k.2 .change).filter fun x => !x.isDep) s1 with
+      | none => simp [hg2] at h
+      | some res2 =>
+        obtain ⟨s2, r2⟩ := res2
+        rw [hg2] at h
+        have f2 := f1.trans (notifyLoop_frame hrec k old new _ _ _ _ hg2)
+        cases r2 with
+        | error e =>
+          simp only at h
+          injection h with h; injection h with h1 _; subst h1
+          exact f2
+        | ok act2 =>
+          simp only at h
+          injection h with h; injection h with h1 _; subst h1
+          exact f2.trans (Frame.of_eq rfl rfl rfl)
 
 /-- G10 repaired: an assignment (rejected, raising in a handler, or completed) leaves the record alone -/
-theorem assignT_frame {rec : Rec} (hrec : FrameRec rec) {k : Key} {v : Int} {s s' : St} {r : R}
+theorem assignT_frame {rec : Rec} (hrec : FrameRec rec) {k : Key} {v : V} {s s' : St} {r : R}
     (h : assignT rec k v s = some (s', r)) : Frame s s' := by
   unfold assignT at h
   split at h
   · injection h with h; injection h with h1 _; subst h1
     exact Frame.refl _
-  · cases hg : rec (.notify k (some (s.store k)) (some v)) s with
+  · cases hg : rec (.notify k (s.store k) v) { s with store := fun k' => if k' = k then v else s.store k' } with
     | none => simp [hg] at h
     | some res =>
       obtain ⟨s1, r1⟩ := res
       rw [hg] at h
-      have f1 := hrec _ _ _ _ hg
+      have f0 : Frame s { s with store := fun k' => if k' = k then v else s.store k' } := Frame.of_eq rfl rfl rfl
+      have f1 := f0.trans (hrec _ _ _ _ hg)
       cases r1 with
       | err e =>
         simp only at h
@@ -314,7 +334,7 @@ theorem assignT_frame {rec : Rec} (hrec : FrameRec rec) {k : Key} {v : Int} {s s
       | ok u =>
         simp only at h
         injection h with h; injection h with h1 _; subst h1
-        exact f1.trans (Frame.of_eq rfl rfl rfl)
+        exact f1
 
 /-- an evaluation entered from a state `s1` that has the context of `s0` (`saved` = its `CURRENT_COMPUTED`) -/
 theorem evalBody_frame {rec : Rec} (hrec : FrameRec rec) {c : Nat} {tree : Tree} {s0 s1 s' : St} {r : R}
@@ -347,7 +367,8 @@ theorem evalBody_frame {rec : Rec} (hrec : FrameRec rec) {c : Nat} {tree : Tree}
       | err e =>
         simp only at h
         injection h with h; injection h with h1 _; subst h1
-        exact Frame.of_leave d4 p4
+        obtain ⟨_, dm, pm⟩ := markFailed_ctx s4 c
+        exact Frame.of_leave (s4 := markFailed s4 c) (dm.trans d4) (fun k hk => by rw [pm]; exact p4 k hk)
       | ok v =>
         simp only at h
         cases hx4 : s4.comps c with
@@ -417,15 +438,15 @@ theorem getC_frame {rec : Rec} (hrec : FrameRec rec) {c : Nat} {s s' : St} {r : 
         simp only at h
         -- the value is remembered by the evaluating Computed, if any
         have key : ∀ s2 : St, Frame s1 s2 →
-            (if some new ≠ x.value then
-              match rec (.notify (x.owner, x.name) x.value (some new)) s2 with
+            (if new ≠ x.value.join then
+              match rec (.notify (x.owner, x.name) x.value.join new) s2 with
               | none => none
               | some (s3, .err e) => some (s3, .err e)
               | some (s3, .ok _) => some (s3, .ok new)
             else some (s2, R.ok new)) = some (s', r) → Frame s s' := by
           intro s2 f2 h2
           split at h2
-          · cases hn : rec (.notify (x.owner, x.name) x.value (some new)) s2 with
+          · cases hn : rec (.notify (x.owner, x.name) x.value.join new) s2 with
             | none => simp [hn] at h2
             | some res =>
               obtain ⟨s3, r3⟩ := res
@@ -502,14 +523,14 @@ theorem step_frame (fuel : Nat) {s s' : St} {op : Op} {r : R} (h : step fuel s o
 /-- one node of a function body, executed with the recursive calls `rec`: what `evalTree` does before it goes
     on with the rest of the function (`t, s` ⟶ `t', s'`); no step = the node raised, ran out of fuel, or is `ret` -/
 inductive TStep (rec : Rec) : Tree → St → Tree → St → Prop
-  | read {s s1 : St} {p : Nat} {u : Int} (k : Key) (cont : Int → Tree) (hcur : s.cur = some p)
+  | read {s s1 : St} {p : Nat} {u : V} (k : Key) (cont : V → Tree) (hcur : s.cur = some p)
       (h : addParent s p (.obs k) (s.store k) = (s1, .ok u)) :
       TStep rec (.read k cont) s (cont (s.store k)) { s1 with proc := k :: s1.proc }
-  | readTop {s : St} (k : Key) (cont : Int → Tree) (hcur : s.cur = none) :
+  | readTop {s : St} (k : Key) (cont : V → Tree) (hcur : s.cur = none) :
       TStep rec (.read k cont) s (cont (s.store k)) s
-  | readC {s s1 : St} {v : Int} (c : Nat) (cont : Int → Tree) (h : rec (.readC c) s = some (s1, .ok v)) :
+  | readC {s s1 : St} {v : V} (c : Nat) (cont : V → Tree) (h : rec (.readC c) s = some (s1, .ok v)) :
       TStep rec (.readC c cont) s (cont v) s1
-  | write {s s1 : St} {u : Int} (k : Key) (v : Int) (next : Tree) (h : rec (.assign k v) s = some (s1, .ok u)) :
+  | write {s s1 : St} {u : V} (k : Key) (v : V) (next : Tree) (h : rec (.assign k v) s = some (s1, .ok u)) :
       TStep rec (.write k v next) s next s1
 
 /-- any number of such steps -/
@@ -561,7 +582,7 @@ theorem TSteps.frame {rec : Rec} (hrec : FrameRec rec) {t t' : Tree} {s s' : St}
   | head h _ ih => exact (h.frame hrec).trans ih
 
 /-- the assignment to a key on record raises -/
-theorem write_inside {p : Nat} {k : Key} {s : St} (i : Inside p k s) (f : Nat) (v : Int) (next : Tree) :
+theorem write_inside {p : Nat} {k : Key} {s : St} (i : Inside p k s) (f : Nat) (v : V) (next : Tree) :
     evalTree (exec (f + 1)) (.write k v next) s = some (s, .err .value) := by
   have hmem : k ∈ s.proc := i.mem
   simp [evalTree, exec, stepF, assignT, i.cur, hmem]
